@@ -1,10 +1,10 @@
-(* C17 / C04 — the forms of the trace predicates c17_peer_fin_ok, c17_fin_seq_ok (Conn/C17_Pred.v) and
-   c04_vsock_ack_ok (Conn/C04_Pred.v) that are theorems of every model trace (Conn/C17_Trace.v,
-   Conn/C04_Step.v), the guards they need, and one new step predicate that sees the defect D6.
+(* C17 — the forms of the trace predicates c17_peer_fin_ok, c17_fin_seq_ok (Conn/C17_Pred.v)
+   that are theorems of every model trace (Conn/C17_Trace.v), the guards they need, and one new step predicate
+   that sees the defect D6.
    Model only: no proofs here. *)
 From Utp Require Import Base.Prelude Wire.SeqNr Wire.Header Rtt.Rtte Mtu.SegSizes Rx.Rx Tx.Ring
   Tx.Segments Conn.Recovery Conn.Msg Conn.VSockRec Conn.VSock Conn.VSockRun Conn.VObs
-  Conn.C17_Pred Conn.C04_Pred.
+  Conn.C17_Pred.
 
 (* ------------------------------------------------------------------ (d) the peer's FIN, corrected *)
 (* c17_peer_fin_ok as written is FALSE of the model (c17_peer_fin_ok_refuted): the clause for out-of-sequence
@@ -120,28 +120,3 @@ Fixpoint fin_same_scan (pk : list fpacket) (fin : option Z) : bool :=
 
 Definition c17_fin_same_ok (cfg : vconfig) (tr : list fstep) : bool :=
   fin_same_scan (all_pkts (own_prefix tr)) None.
-
-(* ------------------------------------------------------------------ C04: the tolerance guard *)
-(* c04_vsock_ack_ok measures every acknowledgement against the number the connection started with by
-   seq_sub, i.e. inside WRAP_TOLERANCE only (D4): it is FALSE of the model once more than 1024 sequence
-   numbers were consumed across the wrap of the 16-bit space (c04_vsock_ack_ok_refuted).  The guard: the
-   peer delivered at most WRAP_TOLERANCE packets that carry a sequence number, and their sequence numbers
-   are 16-bit values (what the wire parser produces). *)
-Definition c04_deliver_u16 (st : fstep) : bool :=
-  match fs_event st with FeDeliver h _ => u16_ok (ch_seq h) | _ => true end.
-
-Fixpoint c04_carrying (tr : list fstep) : Z :=
-  match tr with
-  | [] => 0
-  | st :: r =>
-      (match fs_event st with
-       | FeDeliver h plen => if carries_seq h plen then 1 else 0
-       | _ => 0
-       end) + c04_carrying r
-  end.
-
-Definition c04_within_tol (tr : list fstep) : bool :=
-  forallb c04_deliver_u16 tr && (c04_carrying tr <=? WRAP_TOLERANCE).
-
-Definition c04_vsock_ack_guarded (cfg : vconfig) (tr : list fstep) : bool :=
-  if c04_within_tol tr then c04_vsock_ack_ok cfg tr else true.
